@@ -37,7 +37,7 @@ theorem frameBits_spec (pos : Nat) :
   intro x hx
   rcases List.mem_append.mp hx with h | h
   · rcases List.mem_append.mp h with h | h
-    · have h3 : ∀ y ∈ putBits 3 Gen.Mlw.zdivEos, y = true := by decide
+    · have h3 : ∀ y ∈ putBits 3 zdivEos, y = true := by decide
       exact h3 x h
     · exact putBits_ff_true (by omega) x h
   · exact hp.2 x h
